@@ -25,6 +25,7 @@ class CallGraph:
         for f in M.funcs.values():
             self.by_name.setdefault(f.name, []).append(f)
         self.direct = {}
+        self.ops = {}
         self.edges = {}
         self.unknown_calls = {}
         for q, f in M.funcs.items():
@@ -44,6 +45,8 @@ class CallGraph:
             paths = None
         w = set()
         callees = set()
+        ops = set()
+        self.ops[f.qual] = ops
         if paths is None:
             # fall back: unknown -> may do anything it syntactically mentions
             import ast
@@ -59,6 +62,8 @@ class CallGraph:
             return
         for p in paths:
             for e in p.events:
+                if e.kind in ("layer", "raw", "ext"):
+                    ops.add((e.kind, e.op, self.fx.key(e) if e.kind != "ext" else None))
                 if e.kind in ("layer", "raw"):
                     if self.fx.is_observable_write(e):
                         w.add((e.op, self.fx.key(e)))
